@@ -773,10 +773,6 @@ func checkTypeMap(c *engine.Ctx, mapName, constType string, want int) {
 	pk := p.Pkg("pkg/config/v1")
 	sp := p.SSAPkgs[pk.PkgPath]
 	g, _ := sp.Members[mapName].(*ssa.Global)
-	if g == nil {
-		c.Missing("pkg/config/v1."+mapName, "table not found")
-		return
-	}
 	// constants of the enum type
 	consts := map[string]string{}
 	for _, name := range pk.Types.Scope().Names() {
@@ -789,6 +785,52 @@ func checkTypeMap(c *engine.Ctx, mapName, constType string, want int) {
 	keys := map[string]string{}
 	vals := map[string]bool{}
 	initFn := sp.Func("init")
+	if g == nil {
+		// the table was replaced by a factory switch: evaluate `switch t { case K: return &T{} }` to the same relation
+		factory := map[string]string{"proxyConfigTypeMap": "NewProxyConfigurerByType", "visitorConfigTypeMap": "NewVisitorConfigurerByType"}[mapName]
+		ff := p.Fn("pkg/config/v1." + factory)
+		if ff == nil || ff.Blocks == nil {
+			c.Missing("pkg/config/v1."+mapName, "table not found (and no factory function %s)", factory)
+			return
+		}
+		var res0 []ssa.Value
+		engine.ForEachInstr(ff, func(in ssa.Instruction) {
+			if r, ok := in.(*ssa.Return); ok && len(r.Results) > 0 {
+				res0 = append(res0, r.Results[0])
+			}
+		})
+		q := &engine.PathQuery{Fn: ff, Sink: engine.IsReturn, Track: res0}
+		states, err := q.Run()
+		if err != nil {
+			c.Undecide("pkg/config/v1."+mapName, ff.Pos(), "factory %s: %v", factory, err)
+			return
+		}
+		for _, st := range states {
+			r := st.Sink.(*ssa.Return)
+			v := engine.Unwrap(st.Resolve(r.Results[0]))
+			al, ok := v.(*ssa.Alloc)
+			if !ok {
+				continue
+			}
+			for _, l := range st.Lits {
+				if l.Op != token.EQL || !l.Val {
+					continue
+				}
+				x, y := l.X, l.Y
+				if _, isC := x.(*ssa.Const); isC {
+					x, y = y, x
+				}
+				kc, isC := y.(*ssa.Const)
+				if _, isP := x.(*ssa.Parameter); !isP || !isC || kc.Value == nil {
+					continue
+				}
+				vt := typeShort(engine.Deref(al.Type()))
+				keys[kc.Value.ExactString()] = vt
+				vals[vt] = true
+			}
+		}
+		initFn = nil
+	}
 	engine.ForEachInstr(initFn, func(in ssa.Instruction) {
 		mu, ok := in.(*ssa.MapUpdate)
 		if !ok {
@@ -826,7 +868,11 @@ func checkTypeMap(c *engine.Ctx, mapName, constType string, want int) {
 	}
 	sort.Strings(desc)
 	ok := len(keys) == want && len(vals) == want && len(consts) == want && len(missing) == 0
-	c.Check(ok, "pkg/config/v1."+mapName, g.Pos(), len(keys), []string{strings.Join(desc, " ")},
+	pos := token.NoPos
+	if g != nil {
+		pos = g.Pos()
+	}
+	c.Check(ok, "pkg/config/v1."+mapName, pos, len(keys), []string{strings.Join(desc, " ")},
 		"%s covers exactly the %d %s constants with distinct types (constants: %d, entries: %d, distinct types: %d, uncovered: %s)", mapName, want, constType, len(consts), len(keys), len(vals), strings.Join(missing, ","))
 	c.Floor(1, 1)
 }
